@@ -18,6 +18,7 @@ import (
 type Var struct {
 	Name string `json:"n"`
 	Def  *int   `json:"d,omitempty"`
+	Nil  bool   `json:"nil,omitempty"` // (name nil): the default is given and it is nil
 }
 
 // Flv is one defflavor form. Comps index earlier flavors in written order.
@@ -241,6 +242,7 @@ const (
 type varExp struct {
 	declared bool
 	def      *int // default that must be seen (nil = not fixed)
+	defNil   bool // the default that must be seen is nil
 	gettable int
 	settable int
 	initable int
@@ -262,6 +264,7 @@ func expectVar(fl []Flv, f int, x string) (e varExp) {
 		if v, has := declares(fl[g], x); has {
 			if !e.declared {
 				e.declared = true
+				e.defNil = v.Nil && v.Def == nil
 				e.def = v.Def // the first declaring flavor decides; no default there = not fixed
 			}
 		}
